@@ -6,7 +6,7 @@
    Two shares are modelled side by side: share A lives in a Store (A.store.stamp = sstamp),
    share B has no store.  Times and field values are Python numbers the model never inspects
    beyond copying and adding: Z (the harness uses integer-valued floats / ints).
-   Field names are Python str = lists of code points (ASCII only, see meta.json).
+   Field names are Python str = lists of code points (below 592: ASCII, Latin-1, Latin Extended A/B).
 
    flds = Data.__dict__, an ioflo odict: the list of keys in insertion order (odict._keys)
    with the dict value of each key, or None for a GHOST key: one that is still listed in
@@ -15,6 +15,7 @@
    at C level and never calls odict.__delitem__.                                           *)
 From Coq Require Import List ZArith Bool.
 Import ListNotations.
+Require Import V.gen.C19_Word.   (* word_hi: GENERATED on every run from REO_IdentPub itself *)
 Open Scope Z_scope.
 
 Definition str := list Z.
@@ -30,7 +31,11 @@ Fixpoint str_eqb (a b : str) : bool :=
         The pattern as found ends with a dollar sign, which also matches just before one final
         newline; fixed = anchored at the very end. *)
 Definition is_alpha (c : Z) : bool := ((65 <=? c) && (c <=? 90)) || ((97 <=? c) && (c <=? 122)).
-Definition is_word (c : Z) : bool := is_alpha c || ((48 <=? c) && (c <=? 57)) || (c =? 95).
+(* \w on str patterns is Unicode aware: beyond ASCII the word characters are the code points listed in
+   the generated table word_hi (all code points 128..591 that the implementation's own REO_IdentPub
+   accepts after a letter); names are limited to code points below 592 *)
+Definition is_word (c : Z) : bool :=
+  is_alpha c || ((48 <=? c) && (c <=? 57)) || (c =? 95) || existsb (Z.eqb c) word_hi.
 Fixpoint words (fixed : bool) (r : str) : bool :=
   match r with
   | [] => true
@@ -95,18 +100,25 @@ Fixpoint create_all (fixed : bool) (kvs : list (str * Z)) (f : flds) (upd : bool
   end.
 
 Record share := { fl : flds; stamp : option Z; deck : list (option Z) }.
-Record st := { sstamp : option Z; shA : share; shB : share }.
+(* shT = the store's own .time share (Store.timeShr): created by Store.__init__, rewritten by every
+   changeStamp / advanceStamp; no operation of the model addresses it *)
+Record st := { sstamp : option Z; shA : share; shB : share; shT : share }.
 
 Definition sh (w : bool) (s : st) : share := if w then shA s else shB s.
 Definition set_sh (w : bool) (x : share) (s : st) : st :=
-  if w then {| sstamp := sstamp s; shA := x; shB := shB s |}
-  else {| sstamp := sstamp s; shA := shA s; shB := x |}.
+  if w then {| sstamp := sstamp s; shA := x; shB := shB s; shT := shT s |}
+  else {| sstamp := sstamp s; shA := shA s; shB := x; shT := shT s |}.
 (* self.store.stamp, or None when there is no store (AttributeError caught) *)
 Definition store_stamp (w : bool) (s : st) : option Z := if w then sstamp s else None.
+
+Definition value_key : str := [118; 97; 108; 117; 101].   (* "value" *)
 
 Definition with_fl (x : share) (f : flds) : share := {| fl := f; stamp := stamp x; deck := deck x |}.
 Definition with_stamp (x : share) (t : option Z) : share := {| fl := fl x; stamp := t; deck := deck x |}.
 Definition with_deck (x : share) (d : list (option Z)) : share := {| fl := fl x; stamp := stamp x; deck := d |}.
+(* timeShr.update(value=t) right after store.stamp := t *)
+Definition tick (fixed : bool) (t : Z) (x : share) : share :=
+  {| fl := match setattr fixed value_key t (fl x) with Some f => f | None => fl x end; stamp := Some t; deck := deck x |}.
 
 Inductive op :=
 | SetValue (w : bool) (v : Z)                   (* share.value = v *)
@@ -132,8 +144,6 @@ Inductive res :=
 | RBool (b : bool)
 | RErrAttr | RErrKey | RErrIndex | RErrType
 | RCrash.                  (* implementation only *)
-
-Definition value_key : str := [118; 97; 108; 117; 101].   (* "value" *)
 
 Definition step_gen (fixed : bool) (s : st) (o : op) : st * res :=
   match o with
@@ -197,17 +207,20 @@ Definition step_gen (fixed : bool) (s : st) (o : op) : st * res :=
       end
   | Advance d =>
       match sstamp s with
-      | Some t => ({| sstamp := Some (t + d); shA := shA s; shB := shB s |}, ROk)
+      | Some t => ({| sstamp := Some (t + d); shA := shA s; shB := shB s; shT := tick fixed (t + d) (shT s) |}, ROk)
       | None => (s, RErrType)
       end
-  | SetStamp t => ({| sstamp := Some t; shA := shA s; shB := shB s |}, ROk)
+  | SetStamp t => ({| sstamp := Some t; shA := shA s; shB := shB s; shT := tick fixed t (shT s) |}, ROk)
   end.
 
 Definition step := step_gen true.
 Definition step_orig := step_gen false.
 
 Definition empty_share : share := {| fl := []; stamp := None; deck := [] |}.
-Definition init (t0 : option Z) : st := {| sstamp := t0; shA := empty_share; shB := empty_share |}.
+(* Store.__init__: self.timeShr = self.create('.time').update(value = self.stamp or 0.0) *)
+Definition init_time (t0 : option Z) : share :=
+  {| fl := [(value_key, Some (match t0 with Some t => t | None => 0 end))]; stamp := t0; deck := [] |}.
+Definition init (t0 : option Z) : st := {| sstamp := t0; shA := empty_share; shB := empty_share; shT := init_time t0 |}.
 
 Definition run_from (s : st) (ops : list op) : st := fold_left (fun s o => fst (step s o)) ops s.
 Definition run (t0 : option Z) (ops : list op) : st := run_from (init t0) ops.
@@ -225,8 +238,10 @@ Definition len (f : flds) : Z := Z.of_nat (length (filter (fun kv => match snd k
 
 Definition obs_share := (option (list (str * Z)) * list str * Z * option Z * list (option Z))%type.
 Definition observe1 (x : share) : obs_share := (items (fl x), keys (fl x), len (fl x), stamp x, deck x).
-Definition obs := (option Z * obs_share * obs_share)%type.
-Definition observe (s : st) : obs := (sstamp s, observe1 (shA s), observe1 (shB s)).
+(* store stamp, share A, share B, the .time share, and the stamps of the .realtime and .datetime shares
+   (their values are wall-clock readings and are not modelled; their stamps are the store stamp) *)
+Definition obs := (option Z * obs_share * obs_share * obs_share * option Z * option Z)%type.
+Definition observe (s : st) : obs := (sstamp s, observe1 (shA s), observe1 (shB s), observe1 (shT s), sstamp s, sstamp s).
 
 Fixpoint trace_gen (fixed : bool) (s : st) (ops : list op) : list (res * obs) :=
   match ops with
@@ -251,7 +266,8 @@ Definition obs1_eqb (a b : obs_share) : bool :=
   let '(i1, k1, l1, s1, d1) := a in let '(i2, k2, l2, s2, d2) := b in
   items_eqb i1 i2 && list_eqb str_eqb k1 k2 && Z.eqb l1 l2 && oz_eqb s1 s2 && list_eqb oz_eqb d1 d2.
 Definition obs_eqb (a b : obs) : bool :=
-  let '(t1, a1, b1) := a in let '(t2, a2, b2) := b in oz_eqb t1 t2 && obs1_eqb a1 a2 && obs1_eqb b1 b2.
+  let '(t1, a1, b1, c1, r1, d1) := a in let '(t2, a2, b2, c2, r2, d2) := b in
+  oz_eqb t1 t2 && obs1_eqb a1 a2 && obs1_eqb b1 b2 && obs1_eqb c1 c2 && oz_eqb r1 r2 && oz_eqb d1 d2.
 Definition res_eqb (a b : res) : bool :=
   match a, b with
   | ROk, ROk | RErrAttr, RErrAttr | RErrKey, RErrKey | RErrIndex, RErrIndex | RErrType, RErrType
